@@ -453,12 +453,62 @@ def r4d_sort_keys_are_projections(ctx):
             bad = sorted({x.split("::")[-1] for x in calls if not ALLOWED.search(x)})
             key = "R4d|%s|%s" % (f.root, res.split("::")[-1])
             if bad:
+                # ties only matter where the arrival order is not reproducible: the vector being sorted was filled in the
+                # iteration order of a hash map / set (directly, from a helper that returns such a vector, or from a parameter
+                # whose callers cannot be seen).  A stable sort of a list that is already in a reproducible order (the sorted
+                # per-file view, source order) by a computed key is reproducible.
+                vroot = _root_local(f, c["args"][0]) if c["args"] else None
+                uv = unordered_vectors(crate, f, _returners(ctx))
+                hash_ordered = vroot is None or vroot in uv or (1 <= vroot <= f.argc and f.kind != "closure" and not _param_always_ordered(ctx, f, vroot))
+                if not hash_ordered:
+                    r.ok(sample={"sort_at": crate.span_str(c["span"]), "computed_key_on": "a vector with a reproducible arrival order"})
+                    continue
                 r.violate(key + "|" + ",".join(bad), "the %s closure in %s at %s computes its key with %s: distinct elements can tie and "
                                                      "keep their arrival (hash) order" % (res.split("::")[-1], f.id, crate.span_str(c["span"]), bad))
             else:
                 r.ok(sample={"sort_at": crate.span_str(c["span"]), "comparator_calls": sorted({x.split("::")[-1] for x in calls})})
     r.floor("sorts with a comparator / key closure", n, 4)
     return r
+
+
+def _returners(ctx):
+    """local functions that return a hash-ordered vector unsorted (as computed by R4a's first pass)"""
+    def build():
+        crate = ctx.bin
+        returners = {}
+        for _round in range(3):
+            before = len(returners)
+            for f in crate.real_fns():
+                if f.id in returners:
+                    continue
+                for v, (src, span) in sorted(unordered_vectors(crate, f, returners).items()):
+                    holders = _moved_into(f, v)
+                    if 0 not in holders:
+                        continue
+                    sb = [b for h in holders for b in sort_blocks(f, h)]
+                    if sb and not any(_value_reaches(f, v, rb, avoid=set(sb)) for rb in f.exits()):
+                        continue
+                    returners[f.id] = (v, src, span)
+                    break
+            if len(returners) == before:
+                break
+        return returners
+    return ctx.memo("r4:returners", build)
+
+
+def _param_always_ordered(ctx, f, pl):
+    """every local call site hands parameter `pl` of f a vector that is not hash-ordered (one level)"""
+    crate = ctx.bin
+    sites = [(g, bb, c) for g in crate.real_fns() for bb, c in g.calls() if c.get("res") == f.id and c.get("res_local")]
+    if not sites:
+        return False
+    for g, bb, c in sites:
+        if pl - 1 >= len(c["args"]):
+            return False
+        root = _root_local(g, c["args"][pl - 1])
+        if root is None or root in unordered_vectors(crate, g, _returners(ctx)) or (1 <= root <= g.argc):
+            return False
+    return True
 
 
 # ------------------------------------------------------------------------------------------ R4e: local memo keys
